@@ -380,19 +380,23 @@ mod verif_hashtbl {
         <usize as Status>::check_capacity(d);
         kani::cover!(c == 1usize << 31 && d == 1usize << 63);
     }
+    // "must panic for EVERY input": the panic inside `check_capacity` is excluded from the verdict
+    // in suite.json (`ignore: check_capacity.assertion`), returning normally is the failure.
     #[kani::proof]
-    #[kani::should_panic]
     fn status_check_capacity_rejects_u32() {
         let c: usize = kani::any();
         kani::assume(c > 1usize << 31);
         <u32 as Status>::check_capacity(c);
+        let returned_normally = true;
+        assert!(!returned_normally);
     }
     #[kani::proof]
-    #[kani::should_panic]
     fn status_check_capacity_rejects_usize() {
         let c: usize = kani::any();
         kani::assume(c > 1usize << 63);
         <usize as Status>::check_capacity(c);
+        let returned_normally = true;
+        assert!(!returned_normally);
     }
 
     // =========================================================================================
@@ -421,11 +425,12 @@ mod verif_hashtbl {
         assert!(!(req >= 13 && req <= 24) || c == 32);
     }
     #[kani::proof]
-    #[kani::should_panic]
     fn next_capacity_rejects_u32() {
         let req: usize = kani::any();
         kani::assume(req > (1usize << 31) / 4 * 3 && req <= usize::MAX / 4);
         let _ = RawTable::<u8, u32>::next_capacity(req);
+        let returned_normally = true;
+        assert!(!returned_normally);
     }
     /// S = usize: full usize domain minus the region where `requested * 4` overflows
     #[kani::proof]
@@ -677,20 +682,15 @@ mod verif_hashtbl {
     #[kani::proof]
     #[kani::unwind(17)]
     #[kani::stub(RawTable::next_capacity, next_capacity_class_16)]
-    fn find_or_find_insert_slot_16_rehash() {
+    fn find_or_find_insert_slot_16_rehash_5keys() {
         fofis_rehash_case(NK);
     }
     #[kani::proof]
     #[kani::unwind(17)]
     #[kani::stub(RawTable::next_capacity, next_capacity_class_16)]
-    fn dev_rehash_nk2() {
+    // key universe 0..2; run with `--unwindset <reserve_rehash inner probe loop>:3` (suite.json)
+    fn find_or_find_insert_slot_16_rehash_2keys() {
         fofis_rehash_case(2);
-    }
-    #[kani::proof]
-    #[kani::unwind(17)]
-    #[kani::stub(RawTable::next_capacity, next_capacity_class_16)]
-    fn dev_rehash_nk3() {
-        fofis_rehash_case(3);
     }
     /// growth 16 -> 32: table holds 12 elements (key universe 0..13), 4 FREE slots
     #[kani::proof]
@@ -757,11 +757,10 @@ mod verif_hashtbl {
         core::mem::forget(t);
     }
     /// the composed public insertion protocol: find_or_find_insert_slot, then insert on Err
-    #[kani::proof]
-    #[kani::unwind(17)]
-    fn insert_16() {
+    fn insert_case(norehash: bool) {
         let h: H = kani::any();
         let mut t = any_wf16(&h);
+        kani::assume(!norehash || t.free >= 16 / 4 + 1);
         let k = any_key();
         let old_view = view(&t);
         let old_len = t.len;
@@ -780,6 +779,19 @@ mod verif_hashtbl {
         kani::cover!(present);
         kani::cover!(!present && old_len == 4);
         core::mem::forget(t);
+    }
+    #[kani::proof]
+    #[kani::unwind(17)]
+    #[kani::stub(RawTable::reserve_rehash, reserve_rehash_unreachable)]
+    fn insert_norehash_16() {
+        insert_case(true);
+    }
+    /// includes the rehash path (very expensive, see REPORT.md)
+    #[kani::proof]
+    #[kani::unwind(17)]
+    #[kani::stub(RawTable::next_capacity, next_capacity_class_16)]
+    fn insert_any_16() {
+        insert_case(false);
     }
 
     // =========================================================================================
@@ -885,21 +897,25 @@ mod verif_hashtbl {
     }
     #[kani::proof]
     #[kani::unwind(17)]
+    #[kani::stub(RawTable::reserve_rehash, reserve_rehash_unreachable)]
     fn retain_16_noshrink() {
         retain_case(4, 16, true);
     }
     #[kani::proof]
     #[kani::unwind(17)]
+    #[kani::stub(RawTable::next_capacity, next_capacity_class_16)]
     fn retain_16_shrink_rehash_16() {
         retain_case(1, 3, true);
     }
     #[kani::proof]
     #[kani::unwind(17)]
+    #[kani::stub(RawTable::next_capacity, next_capacity_class_0)]
     fn retain_16_shrink_to_0() {
         retain_case(0, 0, true);
     }
     #[kani::proof]
     #[kani::unwind(17)]
+    #[kani::stub(RawTable::reserve_rehash, reserve_rehash_unreachable)]
     fn retain_16_empty() {
         retain_case(0, 0, false);
     }
@@ -1060,6 +1076,20 @@ mod verif_hashtbl {
         core::mem::forget(t);
     }
 
+    /// cheapest instance of the previous harness: `drop(t.drain())`
+    #[kani::proof]
+    #[kani::unwind(17)]
+    fn drain_drop_restores_wf_16() {
+        let h: H = kani::any();
+        let mut t = any_wf16(&h);
+        let s = snap::<16>(&t);
+        drop(t.drain());
+        assert!(t.len == 0 && view(&t) == 0);
+        assert_wf(&t, &h, NK);
+        kani::cover!(s.len == NK as usize);
+        core::mem::forget(t);
+    }
+
     // =========================================================================================
     // iterators: every element exactly once
     // =========================================================================================
@@ -1205,6 +1235,7 @@ mod verif_hashtbl {
     // =========================================================================================
     #[kani::proof]
     #[kani::unwind(17)]
+    #[kani::stub(RawTable::reserve_rehash, reserve_rehash_unreachable)]
     fn reserve_16_norehash() {
         let h: H = kani::any();
         let mut t = any_wf16(&h);
@@ -1229,6 +1260,7 @@ mod verif_hashtbl {
     }
     #[kani::proof]
     #[kani::unwind(17)]
+    #[kani::stub(RawTable::next_capacity, next_capacity_class_16)]
     fn reserve_16_rehash_to_16() {
         let h: H = kani::any();
         let mut t = any_wf16(&h);
@@ -1246,6 +1278,7 @@ mod verif_hashtbl {
     }
     #[kani::proof]
     #[kani::unwind(33)]
+    #[kani::stub(RawTable::next_capacity, next_capacity_class_32)]
     fn reserve_16_rehash_to_32() {
         let h: H = kani::any();
         let mut t = any_wf16(&h);
